@@ -1,5 +1,5 @@
 """C18 - invalid children are reported, never returned (PRF answers enumerated at every call of real histories)."""
-from ..core import V, R, HarnessError, project
+from ..core import V, R, HarnessError, project, isolated
 from ..ref import hd, secp
 from .. import answers, hdscen
 
@@ -135,7 +135,10 @@ def alphabet_for(call):
 
 
 def enumerate_cases(sc, depth2, stats):
-    table, impl_calls = record(sc, [])
+    from ..core import isolated
+    # every recording runs in its OWN pristine child: a process-wide cache filled by an earlier scenario would otherwise answer
+    # this one without any HMAC call (the seam would look lost)
+    table, impl_calls = isolated(record, sc, [])
     if not impl_calls:
         raise HarnessError("seam lost: scenario %r made no HMAC call through the stub" % sc)
     stats["impl_only_calls"] += len([c for c in impl_calls if c not in table])
@@ -167,7 +170,7 @@ def enumerate_cases(sc, depth2, stats):
                 a = inj_for(call, kpar, first)
                 if not a:
                     continue
-                t2, _ = record(sc, [a])
+                t2, _ = isolated(record, sc, [a])
                 for call2, kpar2 in t2.items():
                     if call2 == call or call2[0] in (b"bip-entropy-from-k", b"Bitcoin seed"):
                         continue
@@ -250,15 +253,14 @@ def run(ctx):
         for sc, d2 in scs:
             out += enumerate_cases(sc, d2, st)
         for sc in limb:
-            table, _ = record(sc, [])
+            table, _ = isolated(record, sc, [])
             for call, kpar in table.items():
                 for ans in LIMB_INVALID + LIMB_VALID:
                     inj = inj_for(call, kpar, ans)
                     if inj:
                         out.append({"sc": sc, "inj": [inj]})
         return out, st
-    from ..core import isolated
-    cases, stats = isolated(enumerate_all)     # recording runs the implementation: done in a child, the parent stays pristine
+    cases, stats = enumerate_all()             # every recording forks its own child: the parent stays pristine
     agg = ctx.product("prf-answers", cases, execute, chunk=8)
     hits = [x["impl_hits"] for x in agg["x"]]
     if hits and sum(1 for h in hits if h) < 0.5 * len(hits):
